@@ -43,3 +43,13 @@ def wsum_mono(ev, L):
 @spec
 def divides(ev, a, b):
     return b % a == 0
+
+
+@spec
+def distinct(ev, L):
+    return len({id(x) for x in L}) == len(L)
+
+
+@spec
+def sorted_by_time(ev, L):
+    return all(L[k].time <= L[k + 1].time for k in range(len(L) - 1))
